@@ -60,7 +60,7 @@ def scalar_cases(pk, modname, names, prop="C01"):
     return cases
 
 
-def op_requires(pk, modname, case, scal, views):
+def op_requires(pk, modname, case, scal, views, prop="C01"):
     """domain of the operation's definition, as formulas over the Cartesian views of the operands and the scalars"""
     R = []
 
@@ -92,8 +92,9 @@ def op_requires(pk, modname, case, scal, views):
             R.append(gt0(mag2(views[0])))
         if modname == "rotate_axis":
             R.append(gt0(mag2(views[0])))        # the first vector argument is the axis
-        if modname == "rotate_quaternion":
-            pass
+        if modname == "rotate_quaternion" and prop in ("C02", "C10"):
+            q = [scal[n] for n in ("u", "i", "j", "k")]
+            R.append((q[0] * q[0] + q[1] * q[1] + q[2] * q[2] + q[3] * q[3]).rel("==", 1))      # the definition is for unit quaternions
     if pk == "lorentz":
         v = views[0]
         if modname in ("beta", "to_beta3"):
